@@ -12,9 +12,9 @@ import Log4rsModel.Roller.Model
           let len = log_writer.len;
           self.policy.process(&mut LogFile{writer, path, len})?;     -- may roll: writer := None
           let log_writer_new = self.get_writer(&mut writer)?;
-          self.encoder.encode(log_writer_new, record)?;  log_writer_new.flush()?;
+          log_writer_new.write_all(&self.encode_whole(record)?)?;  log_writer_new.flush()?;   -- encode into memory first (9f38f0b)
       } else {
-          self.encoder.encode(log_writer, record)?;  log_writer.flush()?;
+          log_writer.write_all(&self.encode_whole(record)?)?;  log_writer.flush()?;
           let len = log_writer.len;
           self.policy.process(&mut LogFile{writer, path, len})?;     -- an Err here: record on disk, append = Err
       }
@@ -152,9 +152,10 @@ def dropWriter (cfg : Cfg σ) (s : St σ) : St σ :=
   | none => s
   | some w => { s with disk := (flushW cfg s.disk w).1, writer := none }
 
-/-- encode + flush through the open writer -/
+/-- `write_all(&self.encode_whole(record)?)` + flush through the open writer: the record is encoded
+into memory and reaches the `LogWriter` as one slice, whatever the encoder's chunking -/
 def writeAndFlush (cfg : Cfg σ) (s : St σ) (w : Writer) (r : Rec) : St σ × Writer :=
-  let (d1, w1) := writeRec cfg s.disk w r
+  let (d1, w1) := writeRec cfg s.disk w [encBytes r]
   let (d2, w2) := flushW cfg d1 w1
   ({ s with disk := d2, writer := some w2 }, w2)
 
@@ -189,12 +190,29 @@ def append (cfg : Cfg σ) (s : St σ) (r : Rec) (fault : Nat → Bool) : Out × 
     let (res, rolled, s) := process cfg s w.len fault
     ({ res, consult := some consult, rolled }, s)
 
-/-- `append` with an encoder that writes its first `n` slices and then returns `Err`:
-`self.encoder.encode(…)?` leaves the function at once — no flush, and in post-process mode no
-policy consultation. The slices already written stay in the `LogWriter` (its `len` counts them) or
-are on disk if they spilled; they reach the file with the next record, or when the writer is
-dropped (roll, restart). This is the code as it is (finding `C05/encoder-error-torn`). -/
-def appendFail (cfg : Cfg σ) (s : St σ) (r : Rec) (n : Nat) (fault : Nat → Bool) : Out × St σ :=
+/-- `append` with an encoder that returns `Err` (after `n` slices — immaterial since 9f38f0b:
+`encode_whole` works in memory): `write_all(&self.encode_whole(record)?)` leaves the function
+before anything is written. Pre-process: the policy has already run and the writer has already
+been (re)opened — `get_writer` precedes `encode_whole` in the statement; post-process: nothing but
+`get_writer` has happened, no flush, no policy consultation. The writer stays open. -/
+def appendFail (cfg : Cfg σ) (s : St σ) (_r : Rec) (_n : Nat) (fault : Nat → Bool) : Out × St σ :=
+  let (s, w) := getWriter cfg s
+  if cfg.trig.pre then
+    let consult := (w.len, (fileOf cfg s.disk).length)
+    let (res, rolled, s) := process cfg s w.len fault
+    match res with
+    | .ok =>
+      let (s, _) := getWriter cfg s
+      ({ res := .errEncode, consult := some consult, rolled }, s)
+    | e => ({ res := e, consult := some consult, rolled }, s)
+  else
+    ({ res := .errEncode, consult := none, rolled := none }, s)
+
+/-- the code before 9f38f0b (kept for the negative witness theorems): the encoder wrote into the
+`LogWriter` slice by slice; on `Err` the slices already written stayed in its buffer (counted in
+`len`) or were on disk if they had spilled, and reached the file with the next record or when the
+writer was dropped (former finding `C05/encoder-error-torn`) -/
+def appendFailUnfixed (cfg : Cfg σ) (s : St σ) (r : Rec) (n : Nat) (fault : Nat → Bool) : Out × St σ :=
   let (s, w) := getWriter cfg s
   if cfg.trig.pre then
     let consult := (w.len, (fileOf cfg s.disk).length)
@@ -246,8 +264,7 @@ def trace (cfg : Cfg σ) (s : St σ) : List Op → List (Option Out × St σ)
   | [] => []
   | op :: ops => applyOp cfg s op :: trace cfg (applyOp cfg s op).2 ops
 
-/-- histories that also contain appends whose encoder fails (the theorems are about `Op`
-histories; these are what the driver runs) -/
+/-- histories that also contain appends whose encoder fails -/
 inductive XOp where
   | op (o : Op)
   | appendFail (r : Rec) (n : Nat) (fault : Option Nat)
